@@ -88,6 +88,7 @@ def config_cases(tier):
         main = [c for c in main if c['precdiff'] == 'inf']
     out += main
     out += [c for c in pp.shape_product(tier) if (not quick) or (c['it'] == 'euler')]
+    out += pp.options_product(tier) + pp.floor_product(tier)
     # (2) constraint toggles x solver fractions x temperatures inside / on / outside the two-phase region
     levels = {
         'system': ['bin', 'tern'],
